@@ -30,18 +30,10 @@ ASSUMED['err-tests-pure'] = ('the registered test predicates (_test_obssize, ...
                              'are pure functions of the tested item')
 
 
-def _exception_classes():
-    tree = source.load_py('biom/exception.py')[1]
-    for n in tree.body:
-        if isinstance(n, ast.ClassDef) and n.bases and isinstance(n.bases[0], ast.Name):
-            smt.EXC_PARENT[n.name] = n.bases[0].id
-
-
 class ErrWorld(World):
     """biom/err.py: ErrorProfile objects, the module-level profile, the effect log"""
 
     def __init__(self, rel, tree, registry, ctypes=None):
-        _exception_classes()
         super().__init__(rel, tree, registry, ctypes)
 
     # -- objects ---------------------------------------------------------------
@@ -69,65 +61,6 @@ class ErrWorld(World):
         if n == 'KINDS':
             return eng.sev(KINDS, st)
         return super().spec_name(eng, st, n)
-
-    def _class_attr(self, eng, st, cls, attr):
-        cnode = self.module_classes.get(cls)
-        for m in cnode.body if cnode else []:
-            if isinstance(m, ast.Assign) and isinstance(m.targets[0], ast.Name) and m.targets[0].id == attr:
-                rs = eng.ev(m.value, st)
-                return rs[0].val
-        return None
-
-    def _property(self, cls, attr, setter=False):
-        cnode = self.module_classes.get(cls)
-        for m in cnode.body if cnode else []:
-            if isinstance(m, ast.FunctionDef) and m.name == attr:
-                is_setter = any(isinstance(d, ast.Attribute) and d.attr == 'setter' for d in m.decorator_list)
-                is_getter = any(isinstance(d, ast.Name) and d.id == 'property' for d in m.decorator_list)
-                if setter and is_setter:
-                    return m
-                if not setter and is_getter:
-                    return m
-        return None
-
-    def obj_attr(self, eng, st, base, n, attr):
-        v = self._class_attr(eng, st, n.cls, attr)
-        if v is not None:
-            return v
-        g = self._property(n.cls, attr)
-        if g is not None:
-            # a read-only look at a property in spec mode: loop-free getter returning a field
-            if len(g.body) <= 2 and isinstance(g.body[-1], ast.Return) and isinstance(g.body[-1].value, ast.Attribute):
-                return n.fields[g.body[-1].value.attr]
-        return None
-
-    def obj_getattr_code(self, eng, st, base, n, attr, node):
-        g = self._property(n.cls, attr)
-        if g is not None:
-            fv = VFn('def', rel=self.rel, qualname='%s.%s' % (n.cls, attr), node=g, self_val=base)
-            return eng.call_def(st, fv, [], {}, node)
-        return None
-
-    def obj_setattr(self, eng, st, base, n, attr, val, node):
-        g = self._property(n.cls, attr, setter=True)
-        if g is not None:
-            fv = VFn('def', rel=self.rel, qualname='%s.%s.setter' % (n.cls, attr), node=g, self_val=base)
-            out = []
-            for r in eng.call_def(st, fv, [val], {}, node):
-                out.append(Result(r.st, exc=r.exc, flow='raise') if r.exc is not None else Result(r.st))
-            return out
-        return None
-
-    def obj_contains(self, eng, st, cont, n, x):
-        cnode = self.module_classes.get(n.cls)
-        for m in cnode.body if cnode else []:
-            if isinstance(m, ast.FunctionDef) and m.name == '__contains__':
-                # loop-free: inline in spec position
-                ret = m.body[-1]
-                if isinstance(ret, ast.Return):
-                    env = {m.args.args[0].arg: cont, m.args.args[1].arg: x}
-                    return eng.truth(st, eng.sev(ret.value, st, env))
-        raise EngineError('membership in %s' % n.cls)
 
     def may_inline(self, fv):
         # small loop-free helpers of the class are executed in place (still the real code)
